@@ -43,6 +43,15 @@ def _cases_core(rng, tier):
         for cut in sorted({0, len(m), len(cat), max(0, len(m) - 3), min(len(cat), len(m) + 2)}):
             pairs.append((cat[:cut], cat[cut:]))
         pairs.append((p, m))
+    # the same for the byte strings that are actually hashed: key = NFKD(m), salt = "mnemonic" + NFKD(p).  Pairs whose
+    # key‖salt concatenations coincide: (M, A+"mnemonic"+B) and (M+"mnemonic"+A, B) — anything keyed on the joined
+    # material (without a length or separator) confuses exactly these
+    for M in (MN[0], MN[4], "x"):
+        for A in ("", "é", " y"):
+            for B in ("", "TREZOR"):
+                pairs.append((M, A + "mnemonic" + B))
+                pairs.append((M + "mnemonic" + A, B))
+                pairs.append((M, A + "mnemonic" + B))
     # byte lengths around the SHA-512 padding boundary (111/112), the HMAC block size (128: a longer key is hashed
     # first) and well beyond: mnemonic = HMAC key, salt = "mnemonic" + passphrase
     lens = [111, 112, 127, 128, 129, 256, 1000] if tier == "thorough" else [rng.choice([111, 112]), 128, 129, rng.choice([127, 256, 1000])]
